@@ -20,6 +20,7 @@ import vlib  # noqa: E402
 from vlib import Check, Inconclusive, SEED, log  # noqa: E402
 import fenspec  # noqa: E402
 import searchlib as sl  # noqa: E402
+import ucilib as ul  # noqa: E402
 import random  # noqa: E402
 
 VERIF = vlib.VERIF
@@ -1059,6 +1060,213 @@ def check_C14(tier):
                       "detector; non-trivial = distinct scripts" % mc)
     ck.cov["samples"] = [{"script": byid[r["id"]]["name"], "calls": [c["op"] + (":" + c["mode"] if c.get("mode") else "") for c in byid[r["id"]]["calls"]],
                           "events": [e["g"] + ":" + e["at"] for e in r["events"]][:40]} for r in results[:2]]
+    return ck.finish()
+
+
+def uci_position_cmd(node):
+    """position command for a TLC walk/tree node (root FEN + moves) and the FEN the specification expects."""
+    root = fenspec.state_to_fen(node["root"])
+    cmd = "position startpos" if root == START_FEN else "position fen " + root
+    if node["path"]:
+        cmd += " moves " + " ".join(fenspec.mv_uci(m) for m in node["path"])
+    return cmd, fenspec.state_to_fen(node["pos"])
+
+
+def uci_model(tier):
+    cfg = "SPECIFICATION Spec\nCONSTANTS\n  MaxLines = %d\n  TraceFile = \"none\"\nINVARIANTS Sane OptionsOut\nCHECK_DEADLOCK FALSE\n" % (10 if tier == "quick" else 14)
+    a = vlib.tlc("UciSession", cfg, workers=8, tag="uci-mc")
+    optf = None
+    for l in vlib.tlc_lines(a, '<<"OPTS"'):
+        optf = json.loads(json.loads(l.rstrip()[len('<<"OPTS", '):-2]))
+        break
+    return a, optf
+
+
+def check_C12(tier):
+    ck = Check("C12", tier)
+    quick = tier == "quick"
+    rng = random.Random(SEED)
+    a, optf = uci_model(tier)
+    ck.add_tlc(a)
+    art, normal, drawn, roots = search_positions(tier, rng)
+    nodes = [n for n in normal if len(n["legal"]) >= 2][:(60 if quick else 2000)]
+    S = ul.send
+    scripts, meta = [], {}
+
+    def add(name, steps, **m):
+        sid = len(scripts) + 1
+        scripts.append({"id": sid, "name": name, "steps": steps})
+        meta[sid] = dict(m, name=name)
+        return sid
+    # ---- random protocol-valid sessions
+    nsess = 30 if quick else 1500
+    for k in range(nsess):
+        steps = [S("uci"), ul.wait("uciok", 3000), ul.sync()]
+        fens = []
+        for g in range(rng.randint(2, 4)):
+            n = rng.choice(nodes)
+            if rng.random() < 0.3:
+                steps.append(S("ucinewgame"))
+            cmd, fen = uci_position_cmd(n)
+            steps += [S(cmd), ul.sync()]
+            fens.append(fen)
+            r = rng.random()
+            if r < 0.55:
+                go = rng.choice(["go depth 3", "go depth 1", "go nodes 2000", "go movetime 60", "go wtime 500 btime 500 winc 10 binc 10",
+                                 "go wtime 300 btime 300 movestogo 5", "go depth 2 searchmoves " + " ".join(fenspec.mv_uci(m) for m in n["legal"][:2])])
+                steps += [S(go), ul.wait("bestmove", 6000)]
+            elif r < 0.8:
+                steps += [S("go infinite"), ul.quiet("bestmove", rng.choice([30, 80]))]
+                if rng.random() < 0.5:
+                    steps.append(ul.sync())
+                steps += [S("stop"), ul.wait("bestmove", 3000)]
+            else:
+                steps += [S("go ponder wtime 400 btime 400"), ul.quiet("bestmove", 50)]
+                if rng.random() < 0.5:
+                    steps += [S("ponderhit"), ul.wait("bestmove", 3000)]
+                else:
+                    steps += [S("stop"), ul.wait("bestmove", 3000)]
+        steps.append(ul.sync())
+        add("protocol", steps, fens=fens)
+    # ---- new-game clause: after ucinewgame a fixed-depth search equals the search of a fresh engine
+    ng_nodes = (roots[1:3] + nodes[:2]) if quick else (roots[:20] + nodes[:40])
+    for i, n in enumerate(ng_nodes):
+        cmd, fen = uci_position_cmd(n)
+        other, _ = uci_position_cmd(nodes[(i * 7 + 3) % len(nodes)])
+        for hash_off in (False, True):
+            pre = [S("uci"), ul.wait("uciok", 3000)] + ([S("setoption name Use_Hash value false")] if hash_off else []) + [ul.sync()]
+            fresh = pre + [S(cmd), S("go depth 4"), ul.wait("bestmove", 20000)]
+            dirty = pre + [S(other), S("go depth 4"), ul.wait("bestmove", 20000), S(cmd), S("go depth 3"), ul.wait("bestmove", 20000),
+                           S("ucinewgame"), S(cmd), S("go depth 4"), ul.wait("bestmove", 20000)]
+            f = add("newgame-fresh", fresh, pair=i, hash_off=hash_off, fen=fen)
+            d = add("newgame-dirty", dirty, pair=i, hash_off=hash_off, fen=fen, fresh=f)
+    # ---- option clause: setoption changes exactly the named field of the configuration print-out
+    for name in sorted(optf):
+        for val in (["true", "false"] if name != "Hash" else ["32", "1"]):
+            add("option", [S("uci"), ul.wait("uciok", 3000), S("setoption name Print Config"), ul.sync(),
+                           S("setoption name %s value %s" % (name, val)), ul.sync(), S("setoption name Print Config"), ul.sync()],
+                option=name, value=val)
+    res = ul.run_sessions(scripts)
+
+    def disc(kind, sig, sid, detail):
+        ck.discs.append({"prop": "C12", "kind": kind, "sig": sig, "fen": "", "detail": detail,
+                         "replay": {"script": scripts[sid - 1], "events": res[sid]["events"][-60:]}})
+        key = "C12|%s|%s" % (kind, sig)
+        ck.disc_count[key] = ck.disc_count.get(key, 0) + 1
+    traces = {}
+    nfen = 0
+    for sc in scripts:
+        sid, r, m = sc["id"], res[sc["id"]], meta[sc["id"]]
+        ev = r["events"]
+        if r["rc"] != 0 or not ev or ev[-1]["ev"] != "end" or ev[-1]["line"] != "loop-exited":
+            last_in = [e.get("line", "") for e in ev if e["ev"] == "in"][-1:] or [""]
+            disc("engine-dies-or-hangs", "crash/" + (last_in[0].split() or ["?"])[0], sid, {"rc": r["rc"], "stderr": r["stderr"][-800:], "last_command": last_in[0]})
+            continue
+        for e in ev:
+            if e["ev"] == "timeout":
+                last_go = [x.get("line", "") for x in ev if x["ev"] == "in" and x.get("line", "").startswith("go") and x["t_ms"] < e["t_ms"]][-1:] or [""]
+                sig = "no-answer/" + e.get("line", "")
+                if e.get("line", "") == "bestmove":
+                    sig += "/" + ("searchmoves" if "searchmoves" in last_go[0] else last_go[0].split()[1] if len(last_go[0].split()) > 1 else "go")
+                disc("missing-" + e.get("line", ""), sig, sid, {"after": last_go[0], "waited_ms": e.get("n")})
+            if e["ev"] == "quiet" and e.get("n", 0) > 0:
+                disc("bestmove-before-stop", "early-bestmove", sid, {"count": e["n"]})
+        # stop -> bestmove latency
+        stops = [e for e in ev if e["ev"] == "in" and e.get("line", "") == "stop"]
+        for st_ in stops:
+            bm = [e for e in ev if e["ev"] == "out" and e.get("line", "").startswith("bestmove") and e["t_ms"] >= st_["t_ms"]]
+            if bm and bm[0]["t_ms"] - st_["t_ms"] > 500:
+                disc("stop-not-prompt", "stop-latency", sid, {"ms": bm[0]["t_ms"] - st_["t_ms"]})
+        if m["name"] == "protocol":
+            traces[sid] = ul.trace_of(ev)
+            fens = [e.get("line", "") for e in ev if e["ev"] == "fen"]
+            # fen events: after uci, after each position command (and after isready during search), at the end
+            want = m["fens"]
+            pos_syncs = []
+            k = 0
+            for e in ev:
+                if e["ev"] == "in" and e.get("line", "").startswith("position"):
+                    k = 1
+                elif e["ev"] == "fen" and k == 1:
+                    pos_syncs.append(e.get("line", ""))
+                    k = 0
+            for got, exp in zip(pos_syncs, want):
+                nfen += 1
+                if got != exp:
+                    disc("position-command", "position/fen-differs", sid, {"engine": got, "specification": exp})
+    # trace validation against UciSession.tla
+    verdicts, st = ul.validate(traces)
+    ck.cov["states"] += st[0]
+    ck.cov["transitions"] += st[1]
+    nacc = 0
+    for sid, (ok, dia) in verdicts.items():
+        if ok:
+            nacc += 1
+        else:
+            tr = traces[sid]
+            bad = tr[dia - 1] if dia - 1 < len(tr) else {"ev": "end"}
+            sig = "wire/" + bad["ev"] + "-" + bad.get("cmd", "")
+            disc("session-not-allowed-by-specification", sig, sid, {"line_index": dia, "line": bad,
+                                                                   "note": "the exchanged lines are not a behaviour of UciSession.tla"})
+    # new game clause
+    def summary(ev):
+        outs = [e.get("line", "") for e in ev if e["ev"] == "out"]
+        bms = [i for i, l in enumerate(outs) if l.startswith("bestmove")]
+        if not bms:
+            return None
+        infos = [l for l in outs[:bms[-1]] if l.startswith("info depth") and " pv " in l]
+        last = infos[-1] if infos else ""
+        import re
+        mm = re.search(r"score (\S+ \S+)", last)
+        return {"bestmove": outs[bms[-1]].split()[1], "score": mm.group(1) if mm else "", "pv": last.split(" pv ")[-1] if last else ""}
+    ncmp = 0
+    for sc in scripts:
+        m = meta[sc["id"]]
+        if m["name"] == "newgame-dirty" and res[sc["id"]]["rc"] == 0 and res[m["fresh"]]["rc"] == 0:
+            a_, b_ = summary(res[m["fresh"]]["events"]), summary(res[sc["id"]]["events"])
+            ncmp += 1
+            if a_ and b_ and a_ != b_:
+                disc("ucinewgame-does-not-reset", "newgame/" + ("hash-off" if m["hash_off"] else "hash-on"), sc["id"],
+                     {"fen": m["fen"], "fresh_engine": a_, "after_ucinewgame": b_})
+    # option clause
+    import re
+    nopt = 0
+    for sc in scripts:
+        m = meta[sc["id"]]
+        if m["name"] != "option" or res[sc["id"]]["rc"] != 0:
+            continue
+        cfgs, cur = [], {}
+        for e in res[sc["id"]]["events"]:
+            if e["ev"] == "out":
+                mm = re.match(r"info string\s*\d+\s*:\s*(\w+)\s+\S+\s+=\s*(.*?)\s*$", e.get("line", ""))
+                if mm:
+                    cur[mm.group(1)] = mm.group(2)
+                if e.get("line", "").startswith("info string Search Config"):
+                    cfgs.append(cur)
+                    cur = {}
+        if len(cfgs) != 2:
+            disc("print-config", "option/no-print-out", sc["id"], {"prints": len(cfgs)})
+            continue
+        nopt += 1
+        changed = {k for k in cfgs[1] if cfgs[0].get(k) != cfgs[1][k]}
+        field = optf[m["option"]]
+        want_val = m["value"]
+        ok = (cfgs[1].get(field) == want_val) and changed <= {field}
+        if not ok:
+            disc("setoption", "option/" + m["option"], sc["id"], {"option": m["option"], "value": want_val, "expected_field": field,
+                                                                   "field_after": cfgs[1].get(field), "fields_changed": sorted(changed)})
+    ck.cov["evaluations"] = len(scripts)
+    ck.cov["distinct_nontrivial"] = len(scripts)
+    ck.cov["traces_validated_against_impl"] = nacc
+    ck.cov["counters"] = {"protocol_sessions": nsess, "sessions_accepted_by_spec": nacc, "position_fens_compared": nfen,
+                          "newgame_pairs": ncmp, "option_sessions": nopt}
+    ck.cov["rule"] = ("real UciHandler.Loop sessions over pipes, one child process each: seeded protocol-valid sessions (every go mode, go sent "
+                      "immediately after bestmove, isready during search, stop, ponderhit) whose exchanged lines are validated against "
+                      "UciSession.tla; position commands built from TLC walk nodes with the FEN expected by the specification; ucinewgame "
+                      "against a fresh engine; every option against the configuration print-out (OptionField of the specification)")
+    ck.cov["samples"] = [{"session": s_["name"], "lines": [e["ev"] + ": " + e.get("line", "") for e in res[s_["id"]]["events"] if e["ev"] in ("in",)][:14]}
+                         for s_ in scripts[:2]]
+    ck.assumptions += ["stop must be answered within 500 ms", "fixed-depth searches are deterministic (single search thread)"]
     return ck.finish()
 
 
